@@ -1,5 +1,16 @@
+import os
+import sys
+
 from ..runner import Harness, Spec
 from ..translate import go_translator
+
+# the concurrent ownership block under the race detector: thorough tier only (the runner has no per-tier race flag, and a
+# -race build would cost the quick tier ~40 s), so the harness list depends on the tier asked for on the command line
+_THOROUGH = os.environ.get("VERIF_TIER") == "thorough" or any(
+    a == "thorough" or a == "--tier=thorough" for a in sys.argv)
+_FILES = {"zz_verif_c08_codec_test.go": "c08/codec_test.go", "zz_verif_c08_gen_test.go": "c08/gen_test.go"}
+_RACE = [Harness(name="own-race", module="pdata/pprofile", pkg="pdata/pprofile/pprofileotlp", files=_FILES,
+                 test="TestVerifC08OwnRace", driver="drv_c08", race=True, n={"quick": 1, "thorough": 1}, timeout_s=1500)] if _THOROUGH else []
 
 SPEC = Spec(
     pid="C08",
@@ -9,7 +20,7 @@ SPEC = Spec(
         Harness(name="codec", module="pdata/pprofile", pkg="pdata/pprofile/pprofileotlp",
                 files={"zz_verif_c08_codec_test.go": "c08/codec_test.go", "zz_verif_c08_gen_test.go": "c08/gen_test.go"},
                 test="TestVerifC08Codec", driver="drv_c08", n={"quick": 1500, "thorough": 20000}, timeout_s=1500),
-    ],
+    ] + _RACE,
     rule="type-directed (reflection over the gogo-generated protogen structs) random payloads of all four signals and of the "
          "export request/response wrappers, pushed through the REAL public marshalers/unmarshalers (protobuf, size, JSON) and through the "
          "Lean codec model under the regenerated schema; separate streams: JSON spelling variants (snake_case keys, 64-bit ints as "
